@@ -219,3 +219,68 @@ CONTRACTS = [
         raises={},
     ),
 ]
+
+
+# ------------------------------------------------------------------------------------------- buildIndex (C18)
+# The index is rebuilt on top of what the writer holds: genIndex gets the compile results and the stored index text,
+# its result is written under the index name, honouring dryRun; a package error is swallowed only with ignoreErrors.
+def _index_setup(it, env):
+    from pyvc import pv
+    from pyvc.models import components as _CM
+    from pyvc.interp import PyRaise
+    ctx = it.ctx
+    _CM.init_ghost(it, env, env.lookup('options'))
+    ctx.ghost['opt_dryRun'] = None          # (the forwarding clause is stated below, over the recorded call)
+    g = ctx.ghost
+    g['ix_calls'] = 0
+
+    def writer_get(it_, comp, args, kwargs, line):
+        g['ix_old_name'] = args[0]
+        old = it_.fresh_any('stored_index')
+        g['ix_old'] = old
+        return old
+
+    def gen_index(it_, comp, args, kwargs, line):
+        g['ix_calls'] += 1
+        g['ix_processed'] = args[0]
+        g['ix_kw_old'] = kwargs.get('old_index_data')
+        if it_.ctx.choose(2, 'genIndex@%s' % line) == 1:
+            _CM.raise_pkg(it_, 'PySmiError', line)
+        t = it_.fresh_any('index_text')
+        g['ix_text'] = t
+        return t
+
+    def writer_put(it_, comp, args, kwargs, line):
+        g['ix_put'] = (args[0], args[1], kwargs.get('dryRun'))
+        g['ix_puts'] = g.get('ix_puts', 0) + 1
+        if it_.ctx.choose(2, 'putData@%s' % line) == 1:
+            _CM.raise_pkg(it_, 'PySmiError', line)
+        return None
+    it.world.comp_models[('writer', 'getData')] = writer_get
+    it.world.comp_models[('writer', 'putData')] = writer_put
+    it.world.comp_models[('codegen', 'genIndex')] = gen_index
+    it.world.models['time.asctime'] = lambda i, a, k: i.fresh_str('asctime')
+
+
+from pyvc import pybuiltins as _BC
+_BC.SPEC_FUNCS.setdefault('ghostv', lambda it, args, kwargs: it.ctx.ghost.get(args[0]))
+_BC.SPEC_FUNCS['IX_PUT'] = lambda it, args, kwargs: it.ctx.ghost.get('ix_put', (None, None, None))[args[0]]
+
+CONTRACTS += [
+    Contract(
+        id='compiler.buildIndex', file='pysmi/compiler.py', func='MibCompiler.buildIndex', serves=['C18'],
+        params={'self': Obj('MibCompiler', _codegen=Comp('codegen'), _writer=Comp('writer'), indexFile=Str),
+                'processedMibs': MapOf(), 'options': MapOf()},
+        setup=_index_setup,
+        ensures={
+            'built_on_top_of_the_stored_index':
+                'ghostv("ix_calls") == 1 and same(ghostv("ix_old_name"), self.indexFile) and '
+                'ghostv("ix_kw_old") is ghostv("ix_old") and ghostv("ix_processed") is processedMibs',
+            'result_is_stored_under_the_index_name':
+                'implies(not raised and ghostv("ix_puts") == 1, same(IX_PUT(0), self.indexFile) and IX_PUT(1) is ghostv("ix_text") '
+                'and same(IX_PUT(2), options.get("dryRun")))',
+            'a_built_index_is_handed_to_the_writer_once': 'implies(not raised and not truthy(options.get("ignoreErrors")), ghostv("ix_puts") == 1)',
+            'errors_are_swallowed_only_on_request': 'implies(raised, not truthy(options.get("ignoreErrors")) and is_exc(exc, "PySmiError"))',
+        },
+        raises={'PySmiError': 'not truthy(options.get("ignoreErrors"))'}),
+]
